@@ -16,6 +16,7 @@ pub mod c13;
 pub mod c15;
 pub mod c16;
 pub mod c17;
+pub mod c18;
 pub mod c19;
 
 pub fn lookup(id: &str) -> Option<&'static dyn Property> {
@@ -35,6 +36,7 @@ pub fn lookup(id: &str) -> Option<&'static dyn Property> {
         "C15" => Some(&c15::C15),
         "C16" => Some(&c16::C16),
         "C17" => Some(&c17::C17),
+        "C18" => Some(&c18::C18),
         "C19" => Some(&c19::C19),
         _ => None,
     }
